@@ -106,7 +106,11 @@ def program_emit_contract(program, nodes, writer, kind):
     except KeyError:
         return  # a `*=` / `@=` to an unmapped bank, or code running off the mapped range: the assembly fails
     except RuntimeError:
-        return  # phase error (C02): the node is not where the label pass put it: the assembly fails
+        # phase error (C02): the node is not where the label pass put it: the assembly fails.  Nothing else stops emission: in
+        # particular no included record and no placement is refused by emit itself (the WRITER decides what it can represent, C11)
+        check("runtime_error_only_on_phase_mismatch", len(program.label_pass_addresses) > 0
+              and program.label_pass_addresses[0] != program.resolver.reloc_address.logical_value)
+        return
     pending = ghost_get("emit_pending")
     if len(pending[0]) > 0:
         check("final_flush", len(writer.log) == 1 and writer.log[0][0] == pending[1] and writer.log[0][1] == pending[0])
